@@ -75,7 +75,7 @@ def h_derivative(h, n, order, bnd, shape):
     h.patch_numeric(HL)
     deg = NPTS[(n, order)] - 1
     f, dexact, scale = _poly1(h, deg)
-    dx = h.real("dx", 1e-8, 1e3)
+    dx = h.real("dx", 1e-8, 1e3, default=0.01, sample=(0.01, 0.5))
     if shape == 0:
         x = h.real("x", -50, 50)
         xs = [x]
@@ -210,9 +210,9 @@ def h_gradient(h, order, nvar, shape, axis, dxmode):
     f, dexact, scale = _polyN(h, nvar, deg)
     x = _points(h, shape, nvar)
     if dxmode == "array":
-        dx = h.reals("dx", (nvar,), 1e-6, 1e2)
+        dx = h.reals("dx", (nvar,), 1e-6, 1e2, sample=(0.01, 0.5))
     else:
-        d0 = h.real("dx", 1e-6, 1e2)
+        d0 = h.real("dx", 1e-6, 1e2, sample=(0.01, 0.5))
         dx = np.array([d0] * nvar, dtype=object if h.symbolic else float)
     calls = []
 
@@ -243,7 +243,7 @@ def h_hessian(h, order, nvar, shape, xaxis, yaxis):
         deg = min(deg, 3)
     f, dexact, scale = _polyN(h, nvar, deg)
     x = _points(h, shape, nvar)
-    dx = h.reals("dx", (nvar,), 1e-6, 1e2)
+    dx = h.reals("dx", (nvar,), 1e-6, 1e2, sample=(0.01, 0.5))
     res = np.asarray(HL.hessian(f, x, order=order, dx=dx, xAxis=xaxis, yAxis=yaxis))
     xa, ya = _axis_list(xaxis, nvar), _axis_list(yaxis, nvar)
     want = tuple(shape) + (len(xa), len(ya))
@@ -394,12 +394,12 @@ _V_T = _V_Q + [dict(nfields=3, which=w, npoints=1) for w in ("derivField", "deri
 HARNESSES = [
     HarnessDef("tables", h_tables, [dict()], encodes=[], random_validation=0),
     HarnessDef("derivative", h_derivative, _D_CASES_Q, _D_CASES_T, max_paths=200, timeout_s=60,
-               encodes=[HL.derivative]),
+               encodes=[HL.derivative], validation_rtol=1e-2),
     HarnessDef("gradient", h_gradient, _G_Q, _G_T, max_paths=50, timeout_s=120,
-               encodes=[HL.gradient]),
+               encodes=[HL.gradient], validation_rtol=1e-2),
     HarnessDef("hessian", h_hessian, _H_Q, _H_T, max_paths=50, timeout_s=120,
-               encodes=[HL.hessian]),
-    HarnessDef("veff-derivatives", h_veff, _V_Q, _V_T, max_paths=100, timeout_s=120,
+               encodes=[HL.hessian], validation_rtol=1e-2),
+    HarnessDef("veff-derivatives", h_veff, _V_Q, _V_T, max_paths=100, timeout_s=120, validation_rtol=1e-2,
                encodes=[EP.EffectivePotential.derivT, EP.EffectivePotential.derivField,
                         EP.EffectivePotential.deriv2FieldT, EP.EffectivePotential.deriv2Field2,
                         EP.EffectivePotential.allSecondDerivatives]),
